@@ -4,14 +4,17 @@
 cd "${1:-/repo}" || exit 2
 unset GOFLAGS GOTOOLCHAIN GOSUMDB
 export GOPROXY=off
-go test -mod=mod -json -vet=off -count=1 -timeout 8m ./... > /tmp/baseline.json 2>/tmp/baseline.err
+BJ=$(mktemp /tmp/baseline.XXXXXX.json); export BJ
+trap 'rm -f "$BJ" "$BJ.err"' EXIT
+go test -mod=mod -json -vet=off -count=1 -timeout 15m ./... > "$BJ" 2>"$BJ.err"
 # the suite leaves an untracked root/.config/slip behind in the tree it ran in
 git ls-files --error-unmatch root >/dev/null 2>&1 || rm -rf ./root
 python3 - <<'PY'
 import json
 base=set(json.load(open('/root/.vp/BASELINE.json'))['stable_pass'])
 st={}
-for l in open('/tmp/baseline.json'):
+import os
+for l in open(os.environ['BJ']):
     try: e=json.loads(l)
     except Exception: continue
     if e.get('Test') and e.get('Action') in('pass','fail','skip'):
